@@ -162,6 +162,30 @@ let dispatch (f : Stdlib.String.t list) : Stdlib.String.t =
                            addr_res (addr_new alnum_fn idna ip_ok u d)
        | _, _ -> "invalid-utf8")
   | ["spec.xdec"; h] -> (match xdec (unhex h) with Some o -> "ok\t" ^ hex o | None -> "err")
+  | ["hdr.value"; name; v] ->
+      (match header_value_encode (unhex name) (unhex v) with
+       | Ok e -> hex (header_line (unhex name) e) | Err _ -> "err" | Panic -> "panic")
+  | ["hdr.name"; n] -> b01 (header_name_ok (unhex n))
+  | ["hdr.mailboxes"; hname; ms] ->
+      let parse_mb s = match split ',' s with
+        | [n; e] -> ((if n = "!" then None else Some (unhex n)), unhex e)
+        | _ -> failwith "mb" in
+      (match mailboxes_header_encode (unhex hname) (List.map parse_mb (split ';' ms)) with
+       | Ok e -> hex (header_line (unhex hname) e) | Err _ -> "err" | Panic -> "panic")
+  | ["hdr.cdisp"; kind; fname] ->
+      (match content_disposition_encode (unhex kind) (unhex fname) with
+       | Ok e -> hex (header_line (unhex "436f6e74656e742d446973706f736974696f6e") e) | Err _ -> "err" | Panic -> "panic")
+  | ["spec.header_block"; b] ->
+      (match header_block (unhex b) with
+       | Some (fs, body) -> Printf.sprintf "some\t%s\t%s" (String.concat "|" (List.map (fun (n, v) -> hex n ^ "=" ^ hex v) fs)) (hex body)
+       | None -> "none")
+  | ["spec.unfold"; b] -> hex (unfold (unhex b))
+  | ["spec.lines"; b] -> hexlist (lines_of (unhex b))
+  | ["spec.decode_unstructured"; b] -> hex (decode_unstructured (unhex b))
+  | ["spec.decode_phrase"; b] -> (match decode_phrase (unhex b) with Some d -> "some\t" ^ hex d | None -> "none")
+  | ["spec.decode_word"; b] -> (match decode_word (unhex b) with Some d -> "some\t" ^ hex d | None -> "none")
+  | ["spec.decode_disposition"; b] ->
+      (match decode_disposition (unhex b) with Some (k, f) -> Printf.sprintf "some\t%s\t%s" (hex k) (hex f) | None -> "none")
   | fn :: _ -> "UNKNOWN-FN " ^ fn
   | [] -> "EMPTY"
 
